@@ -212,6 +212,7 @@ Not decided: collisions between distinct ASN.1 names after mangling; exact case-
 
     // ---------------- no identifier is built from a raw ASN.1 name outside the manglers ----------------
     bypass(m, ctx, &manglers);
+    case_rules(m, ctx);
     // the internal name of a nested CHOICE value split into its ASN.1 parts: both pass through the manglers (= C07.nest)
     crate::rules::c07::nested_choice_ident(m, ctx, "C16.bypass");
 
@@ -458,4 +459,62 @@ fn bypass(m: &Model, ctx: &mut Ctx, manglers: &[&FnInfo]) {
         }
     }
     ctx.extra.insert("identifier_construction_sites".into(), json!(n));
+}
+
+
+/// C16.case: "types in title case, components in snake case, values in upper snake case, hyphens removed". The manglers are
+/// evaluated on names whose hyphens stand before a letter, a digit and a capital: the documented spelling comes out — in
+/// particular no `_` survives in a type name (`Type-1` is `Type1`), and a hyphen becomes exactly one `_` in snake / constant case.
+fn case_rules(m: &Model, ctx: &mut Ctx) {
+    use crate::eval::{Env, Evaluator, Val};
+    let rule = "C16.case";
+    let base_consts = crate::rules::util::const_resolver(m);
+    // the keyword table is an associated constant of the backend: resolved to the array as written
+    let table: Option<Vec<String>> = m.consts.iter().filter_map(|c| str_array(&c.expr)).find(|v| v.iter().any(|s| s == "fn") && v.iter().any(|s| s == "struct"));
+    let consts = |n: &str| -> Option<Val> {
+        if n.ends_with("RUST_KEYWORDS") {
+            return table.as_ref().map(|t| Val::List(t.iter().map(|s| Val::Str(s.clone())).collect()));
+        }
+        base_consts(n)
+    };
+    let inl = crate::rules::util::inline_all(m, &["Rasn"]);
+    let hook = |_: &Evaluator, name: &str, a: &[Val]| -> Option<Result<Val, String>> {
+        match name {
+            // identifiers are modelled by their text
+            "format_ident!" => None,
+            "Ident::new" => a.first().cloned().map(Ok),
+            ".to_token_stream" | ".to_owned" | ".clone" | ".into_token_stream" if a.len() == 1 => Some(Ok(a[0].clone())),
+            "TokenStream::from_str" | "Span::call_site" => a.first().cloned().map(|v| Ok(Val::Ctor("Ok".into(), vec![v], Default::default()))).or(Some(Ok(Val::Unit))),
+            _ => None,
+        }
+    };
+    let ev = Evaluator { consts: &consts, call_hook: &hook, inline: Some(&inl) };
+    let cases: Vec<(&str, Vec<(&str, &str)>)> = vec![
+        ("to_rust_title_case", vec![("Type-1", "Type1"), ("Layer-2-Info", "Layer2Info"), ("Rel-15-Choice", "Rel15Choice"), ("CAM-PDU", "CAMPDU"), ("my-Type", "MyType"), ("Profile-3gpp", "Profile3gpp"), ("X509-Cert", "X509Cert"), ("Plain", "Plain")]),
+        ("to_rust_snake_case", vec![("station-1", "station_1"), ("my-field", "my_field"), ("plain", "plain")]),
+    ];
+    for (fname, list) in cases {
+        let Some(f) = m.fns.iter().find(|f| f.name == fname && f.self_ty.as_deref() == Some("Rasn")) else {
+            ctx.fail_closed(rule, &format!("anchor not found: Rasn::{}", fname));
+            continue;
+        };
+        let param = f.sig.inputs.iter().filter_map(|a| match a { syn::FnArg::Typed(t) => Some(tok(&t.pat)), _ => None }).next().unwrap_or("input".into());
+        for (name, want) in list {
+            ctx.oblige(rule, &format!("{}:{}", fname, name), true);
+            let mut env = Env::new();
+            env.insert("self".into(), Val::ctor("Rasn"));
+            env.insert(param.clone(), Val::Str(name.into()));
+            match ev.eval_fn_body(&f.block, &mut env) {
+                Ok(v) => {
+                    let got = match &v { Val::Sym(s) | Val::Str(s) => s.clone(), o => o.show() };
+                    let got = got.trim_matches('"').to_string();
+                    if got != want {
+                        ctx.violate(rule, &format!("{}:{}", fname, if got.contains('_') && !want.contains('_') { "separator-kept" } else { "spelling" }), &f.file, f.line,
+                            &format!("{}(\"{}\") is `{}`; by the documented case rules ({}) it is `{}`", fname, name, got, if fname.contains("title") { "title case, hyphens removed" } else { "snake case, a hyphen becomes one underscore" }, want));
+                    }
+                }
+                Err(e) => ctx.fail_closed(rule, &format!("[{}({})]: {}", fname, name, e)),
+            }
+        }
+    }
 }
